@@ -24,6 +24,7 @@ type bopt struct {
 	bad     int // input index whose script is made invalid, -1 none
 	seqs    []uint32
 	version uint32
+	lock    uint32
 	pad     int // bytes of data in an extra OP_RETURN output
 	outs    []refchain.TxOut
 	noReg   bool
@@ -145,7 +146,7 @@ func (h *hist) build(ins []OP, o bopt) *genTx {
 			seqs[i] = 0xffffffff - uint32(h.r.Intn(3))
 		}
 	}
-	t := h.g.Spend(ins, coins, outs, ver, 0, seqs, o.bad)
+	t := h.g.Spend(ins, coins, outs, ver, o.lock, seqs, o.bad)
 	x := &genTx{t: t, raw: t.Serialize(true), id: t.TxID(), family: o.family, badScript: o.bad >= 0}
 	var so uint64
 	for _, ot := range outs {
@@ -238,6 +239,9 @@ func (h *hist) runHistory() (violated bool) {
 	for h.step = 1; h.step <= h.steps; h.step++ {
 		h.poisonOn = (h.prof.poison && h.step > h.steps/2) || os.Getenv("C12_POISON") != ""
 		h.kind = h.pickKind()
+		if f := os.Getenv("C12_ONLY"); f != "" { // triage aid
+			h.kind = f
+		}
 		h.run.Inc("steps")
 		h.run.Inc("step/" + h.kind)
 		ok := h.doStep()
@@ -327,6 +331,15 @@ func (h *hist) stepSimple() {
 		return
 	}
 	ins := h.take(&fc, 1+h.r.Intn(3))
+	if h.r.Intn(15) == 0 {
+		// not final at the next height: the pool takes it, the node's own block assembler skips it
+		sq := make([]uint32, len(ins))
+		for i := range sq {
+			sq[i] = 0xfffffffe
+		}
+		h.sub(h.build(ins, bopt{family: "nonfinal-locktime", fee: h.randFee(), bad: -1, lock: h.ref.Tip.Height + 3 + uint32(h.r.Intn(40)), seqs: sq}), h.path())
+		return
+	}
 	h.sub(h.build(ins, bopt{family: "simple", fee: h.randFee(), bad: -1}), h.path())
 }
 
@@ -817,8 +830,8 @@ func (h *hist) stepMinePool(all bool) bool {
 	th, _ := h.node.Tip()
 	if th != b.Hash() {
 		// (g): the node did not connect a block assembled from its own listing
-		h.pendingFindings = append(h.pendingFindings, finding{class: "mined-block-from-listing-not-connected/" + normErr(h.lastDeliver),
-			what: "a block assembled from a prefix of GetSortedMempoolRBF() and delivered like a mined block was not connected by the node: " + cut(h.lastDeliver, 300)})
+		h.pendingFindings = append(h.pendingFindings, finding{head: "mined-block-from-listing-not-connected", detail: normErr(h.lastNode),
+			what: "a block assembled from a prefix of GetSortedMempoolRBF() and delivered like a mined block was not connected by the node: " + cut(h.lastNode+" "+h.lastDeliver, 300)})
 		h.check(true)
 		return true
 	}
@@ -1077,6 +1090,13 @@ func (h *hist) stepTick() {
 	h.note("tick backdated=%d pool=%d", n, before)
 	txpool.Tick()
 	h.run.Inc("ticks")
+	if h.r.Intn(2) == 0 {
+		// client/network/trxs.go SendGetMP: the dynamic fee floor is reset when a getmp is sent
+		txpool.TxMutex.Lock()
+		txpool.CurrentFeeAdjustedSPKB = 0
+		common.SetMinFeePerKB(0)
+		txpool.TxMutex.Unlock()
+	}
 	h.check(false)
 	if h.v != nil {
 		h.run.Count("txs_gone_after_tick", int64(before-len(h.v.ents)))
